@@ -253,6 +253,8 @@ func runC18(r *Run) {
 		{Name: "same prefix, disjoint stores", Filters: []c18Filter{{Name: "a", Prefix: "p", ClientID: "client-a", Redis: "r1/0"}, {Name: "b", Prefix: "p", ClientID: "client-b", Redis: "r2/0"}}},
 	}
 	ownKeySets(r, "[C18]")
+	c18Loader(r)
+	c18Proxy(r)
 	reps := scale(r, 1, 10)
 	for rep := 0; rep < reps; rep++ {
 		for _, l := range layouts {
